@@ -11,6 +11,7 @@ import (
 
 	"verif/harness/h"
 
+	"github.com/itchio/headway/state"
 	"github.com/itchio/lake/tlc"
 	"github.com/itchio/wharf/pwr"
 	"github.com/itchio/wharf/wire"
@@ -24,6 +25,9 @@ type Spec struct {
 	// SigFile: validate against the signature read back from a signature stream (what butler does)
 	// instead of the directly computed one
 	SigFile bool `json:"sig_file,omitempty"`
+	// Listen: the consumer given to the default (printer) mode has an OnMessage callback; without it the
+	// consumer is the zero value, as in the other modes
+	Listen bool `json:"listen,omitempty"`
 }
 
 // readWounds parses a .pww file.
@@ -218,6 +222,32 @@ func check(s Spec) h.Result {
 			}
 		}
 	}
+	// default mode: no wounds file, no fail-fast, no healing - the wounds go to the printer, and its verdict
+	// is what HasWounds() says afterwards
+	pcons := h.Quiet()
+	if s.Listen {
+		pcons = &state.Consumer{OnMessage: func(level, msg string) {}}
+		cl = append(cl, "printer:consumer-with-OnMessage")
+	} else {
+		cl = append(cl, "printer:zero-value-consumer")
+	}
+	pctx := &pwr.ValidatorContext{Consumer: pcons}
+	perr := pctx.Validate(context.Background(), work, si)
+	if !deviates {
+		if perr != nil {
+			return h.Result{Fail: fmt.Sprintf("directory identical to the signed build, but default-mode validation failed: %v", perr), Classes: cl}
+		}
+		if pctx.WoundsConsumer.HasWounds() {
+			return h.Result{Fail: "directory identical to the signed build, but default-mode validation says HasWounds()", Classes: cl}
+		}
+	} else if perr == nil {
+		if !pctx.WoundsConsumer.HasWounds() {
+			return h.Result{Fail: fmt.Sprintf("directory deviates (%s) but default-mode validation returned nil with HasWounds()=false", describe(devs)), Classes: cl}
+		}
+		if pctx.WoundsConsumer.TotalCorrupted() < 0 {
+			return h.Result{Fail: fmt.Sprintf("default mode: TotalCorrupted() is negative (%d)", pctx.WoundsConsumer.TotalCorrupted()), Classes: cl}
+		}
+	}
 	// fail-fast mode
 	ferr := pwr.AssertValid(work, si)
 	if deviates && ferr == nil {
@@ -251,7 +281,7 @@ var prop = h.Prop[Spec]{
 	ID: "C05", Name: "wounds",
 	Gen: func(t *rapid.T) Spec {
 		tr := GenTree(t)
-		return Spec{Tree: tr, Damages: h.GenDamages(t, tr, 4, true, false), SigFile: rapid.IntRange(0, 3).Draw(t, "signature-from-stream") == 0}
+		return Spec{Tree: tr, Damages: h.GenDamages(t, tr, 4, true, false), SigFile: rapid.IntRange(0, 3).Draw(t, "signature-from-stream") == 0, Listen: rapid.Bool().Draw(t, "printer-listens")}
 	},
 	Check: check,
 }
@@ -279,7 +309,7 @@ var propLong = h.Prop[Spec]{
 			off := b0*h.BS + rapid.SampledFrom([]int{0, 0, 0, 1, h.BS - 1}).Draw(t, "in-block")
 			ds = append(ds, h.Dmg{Path: name, Op: "scramble", Off: off, Len: ln*h.BS - rapid.SampledFrom([]int{0, 0, 1, 77}).Draw(t, "short-by")})
 		}
-		return Spec{Tree: tr, Damages: ds, SigFile: rapid.IntRange(0, 5).Draw(t, "signature-from-stream") == 0}
+		return Spec{Tree: tr, Damages: ds, SigFile: rapid.IntRange(0, 5).Draw(t, "signature-from-stream") == 0, Listen: rapid.Bool().Draw(t, "printer-listens")}
 	},
 	Check: check,
 }
